@@ -2,6 +2,7 @@ package main
 
 import (
 	"fmt"
+	"math/big"
 )
 
 // A-ITER: a prefix iterator enumerates, in some fixed order, exactly the keys of the family that are present when it
@@ -17,6 +18,7 @@ func (x *Exec) newIterator(st *State, fam *Family, prefix []*Term, reverse bool)
 	n := x.freshTerm(fmt.Sprintf("it%d_n", id), SInt)
 	pos := fmt.Sprintf("it%d_pos", id)
 	st.assume(Ge(n, IntLit(0)))
+	st.assume(Le(n, BigLit(new(big.Int).Lsh(big.NewInt(1), 62))))
 	match := func(k *Term) *Term {
 		var cs []*Term
 		for i, p := range prefix {
